@@ -53,17 +53,17 @@ Qed.
 
 (** Only the first listener that answers counts. *)
 Theorem first_answer_wins : forall (E R : Type) (ls1 ls2 : list (E -> option R)) l e r,
-  (forall l', In l' ls1 -> l' e = None) -> l e = Some r -> emit (ls1 ++ l :: ls2) e = Some r.
+  (forall l', In l' ls1 -> l' e = None) -> l e = Some r -> broker_emit (ls1 ++ l :: ls2) e = Some r.
 Proof.
-  intros E R ls1. induction ls1 as [|l1 ls1 IH]; intros ls2 l e r Hn Hl; cbn [app emit].
+  intros E R ls1. induction ls1 as [|l1 ls1 IH]; intros ls2 l e r Hn Hl; cbn [app broker_emit].
   - rewrite Hl. reflexivity.
   - rewrite (Hn l1 (or_introl eq_refl)). apply IH; [intros; apply Hn; right; assumption|exact Hl].
 Qed.
 
 Theorem silent_listener_is_absent : forall (E R : Type) (ls1 ls2 : list (E -> option R)) l e,
-  l e = None -> emit (ls1 ++ l :: ls2) e = emit (ls1 ++ ls2) e.
+  l e = None -> broker_emit (ls1 ++ l :: ls2) e = broker_emit (ls1 ++ ls2) e.
 Proof.
-  intros E R ls1. induction ls1 as [|l1 ls1 IH]; intros ls2 l e Hl; cbn [app emit].
+  intros E R ls1. induction ls1 as [|l1 ls1 IH]; intros ls2 l e Hl; cbn [app broker_emit].
   - rewrite Hl. reflexivity.
   - destruct (l1 e); [reflexivity|apply IH; exact Hl].
 Qed.
